@@ -134,6 +134,10 @@ NAMED = [
     ("{{a}} if {{c}} else {{b}}", "1 if x else 2", True), ("{{f}}({{a}})", "g(h(1))", True), ("return {{v}}", "def q():\n    return 3", True),
     ("for {{i}} in {{it}}:\n    {{body*}}", "for k in y:\n    a()\n    b()", False), ("for {{i}} in {{it}}:\n    {{body*}}", "for k in y:\n    a()\n    a()", True), ("for {{i}} in {{it}}:\n    {{...*}}", "for k in y:\n    a()\n    b()", True),
     ("if {{c}}:\n    {{s}}", "if x:\n    a()\n    b()", False), ("if {{c}}:\n    {{s+}}", "if x:\n    a()\n    b()", False), ("if {{c}}:\n    {{...+}}", "if x:\n    a()\n    b()", True),
+    # a wildcard stands for some syntax tree: not for an absent optional child; a pattern that is one wildcard; type parameters are part of a definition
+    ("return {{x}}", "def f():\n    return", False), ("return {{x}}", "def f():\n    return 1", True), ("raise {{e}}", "try:\n    pass\nexcept E:\n    raise", False), ("{{s}}[{{a}}:{{b}}]", "z[1:]", False),
+    ("{{s}}[{{a}}:{{b}}]", "z[1:2]", True), ("assert {{c}}, {{m}}", "assert x", False), ("yield {{x}}", "def f():\n    yield", False), ("{{a}}: int = {{v}}", "x: int", False), ("{{x}}", "a + b", True),
+    ("def {{f}}():\n    return 1", "def g[T]():\n    return 1", False), ("def {{f}}[T]():\n    return 1", "def g[T]():\n    return 1", True), ("class C:\n    pass", "class C[T]:\n    pass", False),
     ("from foo import {{n+}}", "from foo import bar, bar", True), ("from foo import {{n+}}", "from foo import bar, spam", False), ("from foo import {{...+}}", "from foo import bar, spam", True),
 ]
 
